@@ -10,7 +10,7 @@ from .c07 import mk
 from .common import MC, P, Q, TTL_FOREVER, RecTransport, loop_clean, new_loop, sd_entries_sent, stub_uniform
 
 PROPERTY = "C06"
-BUDGET_S = {"quick": 900, "thorough": 3400}
+BUDGET_S = {"quick": 900, "thorough": 7200}
 STUBS = [
     "event loop: VirtualLoop (symbolic ticks, solver-chosen delivery iteration and batching)",
     "struct/bytes/enum lowering (TTL bytes of every Subscribe are symbolic)",
